@@ -30,9 +30,9 @@ fn reorient<const FW: u16, const FH: u16, const FAST: bool>(
     assert!(bb.top_left == Point::zero() && bb.size == sz, "[C10] bounding_box() follows the new orientation");
     {
         let c = &mut unsafe { d.dcs() }.c;
-        assert!(c.madctl == expected_madctl(co, o2, ro), "[C10][C14][C15] controller address mode = encoding of the last orientation, colour/refresh bits preserved");
-        assert!(c.madctl_count == 2 + two as u32, "[C10] one address-mode command per set_orientation");
-        assert!(c.pixels == 0, "[C10] set_orientation writes no pixels");
+        crate::indep! { assert!(c.madctl == expected_madctl(co, o2, ro), "[C10][C14][C15] controller address mode = encoding of the last orientation, colour/refresh bits preserved"); }
+        crate::indep! { assert!(c.madctl_count == 2 + two as u32, "[C10] one address-mode command per set_orientation"); }
+        crate::indep! { assert!(c.pixels == 0, "[C10] set_orientation writes no pixels"); }
         c.arm();
     }
     kani::cover!(two && o1 != o2 && o2 != o0 && o1 != o0, "cover: two distinct changes");
